@@ -9,7 +9,9 @@ git -C /repo worktree add -q --detach $wt HEAD || exit 2
 cd $wt
 place=$(head -1 $d/demo_test.go | sed -n 's/.*place in: *\([^ ]*\).*/\1/p')
 [ -z "$place" ] && place=server
-run_demo() { cp $d/demo_test.go $wt/$place/zz_seed_demo_test.go; timeout 900 go test -vet=off -count=1 -tags "${TAGS:-}" ./$place/ >/tmp/confirm_demo_$$.log 2>&1; rc=$?; rm -f $wt/$place/zz_seed_demo_test.go; return $rc; }
+# only the demonstration's own tests are run (other tests of the package leave package-level store mocks behind)
+runre="^($(grep -o '^func Test[A-Za-z0-9_]*' $d/demo_test.go | sed 's/^func //' | paste -sd'|'))\$"
+run_demo() { cp $d/demo_test.go $wt/$place/zz_seed_demo_test.go; timeout 900 go test -vet=off -count=1 -tags "${TAGS:-}" -run "$runre" ./$place/ >/tmp/confirm_demo_$$.log 2>&1; rc=$?; rm -f $wt/$place/zz_seed_demo_test.go; return $rc; }
 run_demo; clean_rc=$?
 git apply $d/patch.diff || { echo '{"applies": false}'; cd /; git -C /repo worktree remove --force $wt; exit 1; }
 go build ./server/... >/dev/null 2>&1; b1=$?
